@@ -86,6 +86,7 @@ type Scenario struct {
 	Sched    SchedSpec  `json:"sched"`
 	O2Every  uint64     `json:"o2_every,omitempty"` // per-step argument check cadence (0: operation boundaries only)
 	RefOrder []int      `json:"ref_order"`          // order of the second solo pass (flattened op numbers)
+	MapSeed  uint64     `json:"map_seed"`           // order in which library `range <map>` loops iterate (the simulator owns it)
 	Contend  bool       `json:"contend,omitempty"`
 	Shape    string     `json:"shape,omitempty"` // workload shape this scenario was drawn with (informational)
 }
@@ -105,6 +106,7 @@ var fieldChoices = []string{"", "", "", "default", "dflt field", "x"}
 // no solo step counts and make no library call before the simulated run.
 func genScenario(r *zsimrt.Rand, run, seed uint64, cold bool, c *corpus) *Scenario {
 	sc := &Scenario{Run: run, Seed: seed, Cold: cold}
+	sc.MapSeed = r.Uint64() | 1
 
 	// workload shape (swarm style): 0-3 every task works on ONE shared expression,
 	// 4-5 every task hammers the global entry points, 6-9 a free mix
